@@ -444,6 +444,54 @@ namespace
       if(rank == 0) unlink(name);
     }, one, nullptr, false});
     // ------------------------------------------------------------------------------------------
+    T.push_back({"zero-size messages and zero-count collectives (null buffers); counts 0 and 1", 1, 4, [](int rank, int P, Exec& e)
+    {
+      const int nx = (rank + 1) % P, pv = (rank + P - 1) % P;
+      MPI_Request rq[4]; MPI_Status st[4];
+      double one = 1.5 + rank, got = -1;
+      MPI_Irecv(nullptr, 0, MPI_DOUBLE, pv, 3, MPI_COMM_WORLD, &rq[0]);
+      MPI_Irecv(&got, 1, MPI_DOUBLE, pv, 4, MPI_COMM_WORLD, &rq[1]);
+      MPI_Isend(nullptr, 0, MPI_DOUBLE, nx, 3, MPI_COMM_WORLD, &rq[2]);
+      MPI_Isend(&one, 1, MPI_DOUBLE, nx, 4, MPI_COMM_WORLD, &rq[3]);
+      MPI_Waitall(4, rq, st);
+      int c0 = -1, c1 = -1; MPI_Get_count(&st[0], MPI_DOUBLE, &c0); MPI_Get_count(&st[1], MPI_DOUBLE, &c1);
+      EXPECT(c0 == 0 && c1 == 1 && got == 1.5 + pv && st[0].MPI_SOURCE == pv && st[0].MPI_TAG == 3, "zero-size message: counts " << c0 << "," << c1);
+      MPI_Bcast(nullptr, 0, MPI_INT, P - 1, MPI_COMM_WORLD);
+      MPI_Allreduce(MPI_IN_PLACE, nullptr, 0, MPI_DOUBLE, MPI_SUM, MPI_COMM_WORLD);
+      int dummy = 7; MPI_Allreduce(MPI_IN_PLACE, &dummy, 0, MPI_INT, MPI_MAX, MPI_COMM_WORLD); EXPECT(dummy == 7, "zero-count Allreduce touched the buffer");
+      MPI_Gather(nullptr, 0, MPI_INT, nullptr, 0, MPI_INT, 0, MPI_COMM_WORLD);
+      std::vector<int> cnt(static_cast<size_t>(P), 0), dsp(static_cast<size_t>(P), 0);
+      cnt[0] = 1; int mine = 40 + rank, all = -1;
+      MPI_Allgatherv(&mine, rank == 0 ? 1 : 0, MPI_INT, &all, cnt.data(), dsp.data(), MPI_INT, MPI_COMM_WORLD); EXPECT(all == 40, "Allgatherv with empty contributions " << all);
+      MPI_Alltoall(nullptr, 0, MPI_INT, nullptr, 0, MPI_INT, MPI_COMM_WORLD);
+    }, one, nullptr, true});
+    // ------------------------------------------------------------------------------------------
+    T.push_back({"one Waitany array mixing receive, send and collective requests; requests given in descending source order", 2, 4, [](int rank, int P, Exec& e)
+    {
+      if(rank == 0)
+      {
+        std::vector<int> buf(static_cast<size_t>(P), -1); std::vector<MPI_Request> rq;
+        for(int s = P - 1; s >= 1; --s) { rq.push_back(MPI_REQUEST_NULL); MPI_Irecv(&buf[size_t(s)], 1, MPI_INT, s, 0, MPI_COMM_WORLD, &rq.back()); }
+        int sum = 1, out = -1; rq.push_back(MPI_REQUEST_NULL); MPI_Iallreduce(&sum, &out, 1, MPI_INT, MPI_SUM, MPI_COMM_WORLD, &rq.back());
+        int tok = 5; rq.push_back(MPI_REQUEST_NULL); MPI_Isend(&tok, 1, MPI_INT, 1, 9, MPI_COMM_WORLD, &rq.back());
+        std::string order;
+        for(;;) { int idx; MPI_Waitany(int(rq.size()), rq.data(), &idx, MPI_STATUS_IGNORE); if(idx == MPI_UNDEFINED) break; order += char('a' + idx); }
+        EXPECT(order.size() == rq.size(), "completions " << order);
+        EXPECT(out == P, "Iallreduce through Waitany " << out);
+        for(int s = 1; s < P; ++s) EXPECT(buf[size_t(s)] == 70 + s, "value from " << s);
+        e.obs[0] = order;
+      }
+      else
+      {
+        int sum = 1, out = -1, v = 70 + rank; MPI_Request rq[2];
+        MPI_Iallreduce(&sum, &out, 1, MPI_INT, MPI_SUM, MPI_COMM_WORLD, &rq[0]);
+        MPI_Isend(&v, 1, MPI_INT, 0, 0, MPI_COMM_WORLD, &rq[1]);
+        if(rank == 1) { int tok = 0; MPI_Recv(&tok, 1, MPI_INT, 0, 9, MPI_COMM_WORLD, MPI_STATUS_IGNORE); EXPECT(tok == 5, "token"); }
+        MPI_Waitall(2, rq, MPI_STATUSES_IGNORE);
+        EXPECT(out == P, "Iallreduce " << out);
+      }
+    }, [](int P) { return fact(P + 1); }, [](int P) { return fact(P + 1); }, false});
+    // ------------------------------------------------------------------------------------------
     {
       Test t{"leftovers are reported (unmatched eager send, unfreed communicator)", 2, 2, [](int rank, int, Exec&)
       {
